@@ -7,6 +7,7 @@
 import Rtp.Proofs.AV1Depack
 import Rtp.Proofs.AV1DepackIdx
 import Rtp.Proofs.AV1Packet
+import Rtp.Proofs.AV1PacketIdx
 namespace Rtp.Props.C09.AV1
 open Rtp Rtp.Model Rtp.Model.AV1
 
@@ -40,10 +41,19 @@ theorem c09_av1packet (reuse : Bool) (st : PktSt) (buf : Bytes) (ps : List (Opti
   | nil => simp [pktCallsOf, Pred.C09Av1.histOk]
   | cons p ps ih =>
     simp only [Pred.C09Av1.histOk] at ih ⊢
-    simp only [pktCallsOf, List.all_cons, ih, Bool.and_true, Pred.C09Av1.callOk]
+    simp only [pktCallsOf, pktUnmarshalX_eq, readFramesC_eq, List.all_cons, ih, Bool.and_true,
+      Pred.C09Av1.callOk]
     have := pktUnmarshal_ne_panic (if reuse = true then st else {}) p
     cases hr : (pktUnmarshal (if reuse = true then st else {}) p).1 <;>
-      simp_all [Res.coarse, Res.isPanic]
+      simp_all [Res.coarse, Res.isPanic, Res.isOk]
+
+/-- the index-based models of AV1Packet.Unmarshal / parseBody and frame.AV1.ReadFrames with CHECKED
+    slice and index expressions never fail a check and compute what the list models compute -/
+theorem c09_av1packet_slices_in_range (p : PktSt) (payload : Option Bytes) (buf : Bytes) (z y : Bool)
+    (elems : List Bytes) :
+    pktUnmarshalC p payload = some (pktUnmarshal p payload) ∧
+    readFramesC buf z y elems = some (readFrames buf z y elems) :=
+  ⟨pktUnmarshalC_eq p payload, readFramesC_eq buf z y elems⟩
 
 /-- non-vacuity: the witness of DESIGN §7 row 11 on the model (the OBU comes out) -/
 example : ((depObsOf {} [some [0x50, 0x30, 0x01, 0x02, 0x03], some [0x90, 0x04, 0x05]]).map (·.res)) =
